@@ -168,3 +168,16 @@ pub open spec fn challenges_ok<F: RichField + Extendable<D>, H: Hasher<F>, const
     &&& ch.fri_query_indices.len() == params.config.num_query_rounds
     &&& forall|k: int| 0 <= k < ch.fri_query_indices.len() ==> ((#[trigger] ch.fri_query_indices[k]) as nat) < pow2((params.degree_bits + params.config.rate_bits) as nat)
 }
+
+// everything verify_fri_proof must have checked before returning Ok
+pub open spec fn fri_proof_ok<F: RichField + Extendable<D>, H: Hasher<F>, const D: usize>(
+    instance: FriInstanceInfo<F, D>, openings: FriOpenings<F, D>, challenges: FriChallenges<F, D>, initial_merkle_caps: Seq<MerkleCap<F, H>>,
+    proof: FriProof<F, H, D>, params: FriParams,
+) -> bool {
+    &&& fri_shape_ok(proof, seq![instance], params)
+    &&& spec_pow_ok(challenges.fri_pow_response, params.config.proof_of_work_bits)
+    &&& params.config.num_query_rounds == proof.query_round_proofs.len()
+    &&& forall|k: int| 0 <= k < proof.query_round_proofs.len() ==>
+            query_round_ok::<F, H, D>(instance, challenges, spec_reduced_openings(openings, challenges.fri_alpha), initial_merkle_caps,
+                proof, #[trigger] challenges.fri_query_indices[k], proof.query_round_proofs[k], params)
+}
